@@ -779,8 +779,11 @@ func (fsm *fsm) stateChange(nextState bgp.FSMState, reason *fsmStateReason) {
 			}
 		}
 
-		fsm.isEBGP = conf.IsEBGPPeer(fsm.gConf)
-		fsm.isConfed = fsm.gConf.IsConfederationMember(conf.Config.PeerAs)
+		// Use the AS learnt from the OPEN: Config.PeerAs is 0 for peers whose
+		// AS is not configured (dynamic and unnumbered neighbors), and equals
+		// remoteAS otherwise (ValidateOpenMsg has checked it).
+		fsm.isEBGP = remoteAS != localAS
+		fsm.isConfed = fsm.gConf.IsConfederationMember(remoteAS)
 		fsm.isTreatAsWithdraw = conf.ErrorHandling.Config.TreatAsWithdraw
 		// reset the state set by the previous session
 		fsm.twoByteAsTrans = false
